@@ -1025,8 +1025,47 @@ def rule_methods(repo):
     return r
 
 
+def rule_index_scope(repo):
+    """A name used as list index / slice bound is treated as a per-instance constant when it is a global or closure variable.
+    A name bound inside the block (loop variable, temporary) must never be resolved that way: it denotes every index."""
+    r = RuleResult('R-C02-index-scope', "a block-local name (loop variable) used as an index stands for all elements, even when a global of "
+                                        "the same name exists")
+    m = repo.mod(ASTH)
+    base = m.methods('DetectVarNames')
+    copies = [v for k, v in base.items() if k.startswith('_get_full_name')]
+    if not copies:
+        raise AnalysisError("anchor vanished: DetectVarNames._get_full_name*")
+    init = base.get('__init__')
+    has_locals = init is not None and any(isinstance(a, ast.Assign) and norm(a.targets[0]) == 'self.locals' and 'co_varnames' in norm(a.value)
+                                          for a in ast.walk(init))
+    n = 0
+    for f in copies:
+        for t in ast.walk(f):
+            # every test `x in self.globals` that turns a name into a constant
+            if isinstance(t, ast.If) and isinstance(t.test, ast.Compare) and len(t.test.ops) == 1 and isinstance(t.test.ops[0], ast.In) \
+                    and norm(t.test.comparators[0]) == 'self.globals':
+                n += 1
+                x = norm(t.test.left)
+                gs = guards_of(t)
+                shadow = [g for g in gs if g.kind in ('if', 'exit') and norm(g.test) in (f"{x} in self.locals", f"{x} not in self.locals")]
+                okg = any((norm(g.test) == f"{x} in self.locals" and g.polarity is False) or
+                          (norm(g.test) == f"{x} not in self.locals" and g.polarity is True) for g in shadow)
+                cons = f"{f.name}: `{norm(t.test)}` -> constant"
+                if okg and has_locals:
+                    r.ok(m, f"DetectVarNames.{f.name}", cons)
+                else:
+                    r.bad(m, f"DetectVarNames.{f.name}", cons,
+                          f"`{x}` is resolved as a global constant without first excluding names bound inside the block "
+                          f"(upblk.__code__.co_varnames): with a module-level `i = 1`, `for i in range(4): s.regs[i] <<= ...` records only "
+                          f"regs[1] as written -- missing constraints, registers never double-buffered", t.lineno)
+    if n < 3:
+        raise AnalysisError("index-constant resolution sites not found")
+    r.require_floor(3)
+    return r
+
+
 RULES = [rule_visitor, rule_funcfold, rule_overlap, rule_pairing, rule_netblk, rule_kahn, rule_greenlet, rule_novar_cycle, rule_cache_scope,
-         rule_methods]
+         rule_methods, rule_index_scope]
 
 
 def _m(name, file, old, new, rule=None, count=1):
@@ -1034,6 +1073,7 @@ def _m(name, file, old, new, rule=None, count=1):
 
 
 MUTANTS = [
+    _m('D20-loopvar-resolved-as-global', ASTH, "          if   x in self.locals:  pass\n          elif x in self.globals: n = (False, x)", "          if   x in self.globals: n = (False, x)", 'R-C02-index-scope', count=2),
     _m('check-schedule-render-unprotected', SIMPLE, "    try:\n      dump_dag( top, V_leftovers, E_leftovers )\n    except Exception:\n      pass\n", "    dump_dag( top, V_leftovers, E_leftovers )\n", 'R-kahn'),
     _m('methods-continuation-guarded', GENDAG, "              if (v, -1) not in visited:\n                visited.add( (v, -1) )\n                Q.append( (v, -1) )", "              if v in method_blks and (v, -1) not in visited:\n                visited.add( (v, -1) )\n                Q.append( (v, -1) )", 'R-C02-methods'),
     _m('methods-succ-orientation', GENDAG, "                    top._dag.all_constraints.add( (blk, v) )", "                    top._dag.all_constraints.add( (v, blk) )", 'R-C02-methods'),
